@@ -1,4 +1,4 @@
 R BHS.Tokens
 R BHS.Auth
 R Coq.Strings.String. Extraction Blacklist String
-X Auth.decide Auth.needs_admin Auth.spec_reaches Auth.under_api Auth.allow
+X Auth.decide Auth.visible Auth.needs_admin Auth.spec_reaches Auth.under_api Auth.allow
